@@ -1,6 +1,7 @@
 package main
 
 import (
+	"fmt"
 	"go/token"
 	"go/types"
 	"strings"
@@ -310,6 +311,136 @@ func c17(c *ctx) {
 		for _, cs := range callsIn(handshake, false, newState) {
 			p := c.p.path(argOf(cs, 0))
 			r.Check(strings.Contains(p, "HKDFSecretsAndChallenge("), "R5/aead-source", c.p.Pos(cs.Pos()), "AEAD from this session's HKDF", "an AEAD state is built from "+p+", not from this session's HKDF output")
+		}
+	}
+
+	// ------------------------------------------------------------------ R6
+	r.Rule("R6", "FLOW", "the HKDF output buffer is write-once: after io.ReadFull filled it nothing writes into it (directly or in a callee it is handed to) before keys and challenge are copied out; the challenge is copied from the buffer's tail, which does not overlap the two key ranges", 3)
+	if hk := c.fn("lib/crypto.HKDFSecretsAndChallenge"); hk != nil {
+		// the buffer: the array allocation handed to io.ReadFull
+		var buf ssa.Value
+		instrs(hk, func(in ssa.Instruction) {
+			if cc := callCommon(in); cc != nil && calleeName(cc) == "io.ReadFull" && len(cc.Args) == 2 {
+				if sl, ok := cc.Args[1].(*ssa.Slice); ok {
+					buf = sl.X
+				}
+			}
+		})
+		if buf == nil {
+			r.Unk("R6/hkdf-buffer", c.p.Pos(hk.Pos()), "could not find the buffer io.ReadFull fills from the HKDF reader")
+		} else {
+			var writesParam func(f *ssa.Function, i int, depth int) string
+			writesParam = func(f *ssa.Function, i int, depth int) string {
+				if f == nil || len(f.Blocks) == 0 || i >= len(f.Params) || depth > 2 {
+					return ""
+				}
+				der := map[ssa.Value]bool{f.Params[i]: true}
+				for ch := true; ch; {
+					ch = false
+					instrs(f, func(in ssa.Instruction) {
+						v, ok := in.(ssa.Value)
+						if !ok || der[v] {
+							return
+						}
+						switch x := in.(type) {
+						case *ssa.Slice:
+							if der[x.X] {
+								der[v], ch = true, true
+							}
+						case *ssa.IndexAddr:
+							if der[x.X] {
+								der[v], ch = true, true
+							}
+						case *ssa.Phi:
+							for _, e := range x.Edges {
+								if der[e] {
+									der[v], ch = true, true
+								}
+							}
+						}
+					})
+				}
+				found := ""
+				instrs(f, func(in ssa.Instruction) {
+					switch x := in.(type) {
+					case *ssa.Store:
+						if der[x.Addr] {
+							found = "stores into it at " + c.p.Pos(in.Pos())
+						}
+					case ssa.CallInstruction:
+						cc := x.Common()
+						if b, ok := cc.Value.(*ssa.Builtin); ok {
+							if (b.Name() == "clear" || b.Name() == "copy") && len(cc.Args) > 0 && der[cc.Args[0]] {
+								found = b.Name() + "s into it at " + c.p.Pos(in.Pos())
+							}
+							return
+						}
+						if callee := cc.StaticCallee(); callee != nil {
+							for ai, a := range cc.Args {
+								if der[a] {
+									if w := writesParam(callee, ai, depth+1); w != "" {
+										found = "hands it to " + fnName(callee) + " which " + w
+									}
+								}
+							}
+						}
+					}
+				})
+				return found
+			}
+			// every use of the buffer in HKDFSecretsAndChallenge
+			der := map[ssa.Value]bool{buf: true}
+			instrs(hk, func(in ssa.Instruction) {
+				if sl, ok := in.(*ssa.Slice); ok && der[sl.X] {
+					der[sl] = true
+				}
+			})
+			nUses := 0
+			instrs(hk, func(in ssa.Instruction) {
+				cs, ok := in.(ssa.CallInstruction)
+				if !ok {
+					return
+				}
+				cc := cs.Common()
+				for ai, a := range cc.Args {
+					if !der[a] {
+						continue
+					}
+					nUses++
+					name := calleeName(cc)
+					if name == "io.ReadFull" {
+						r.OK("R6/buffer-use/io.ReadFull", c.p.Pos(in.Pos()), "the single fill of the buffer from the HKDF reader")
+						continue
+					}
+					if b, ok := cc.Value.(*ssa.Builtin); ok {
+						bad := (b.Name() == "copy" || b.Name() == "clear") && ai == 0
+						r.Check(!bad, "R6/buffer-use/"+b.Name(), c.p.Pos(in.Pos()), b.Name()+" reads the buffer", "HKDFSecretsAndChallenge "+b.Name()+"s into the HKDF output buffer after it was filled: keys/challenge derived afterwards are no longer the HKDF output")
+						continue
+					}
+					w := ""
+					if callee := cc.StaticCallee(); callee != nil {
+						w = writesParam(callee, ai, 0)
+					}
+					r.Check(w == "", "R6/buffer-use/"+name, c.p.Pos(in.Pos()), name+" only reads the buffer", "the HKDF output buffer is handed to "+name+", which "+w+": the challenge copied afterwards is no longer derived from the session secret (a constant challenge can be replayed and relayed)")
+				}
+			})
+			r.Check(nUses >= 3, "R6/buffer-use/count", c.p.Pos(hk.Pos()), fmt.Sprintf("%d uses of the buffer examined", nUses), "fewer uses of the HKDF buffer than known (fill, key extraction, challenge copy)")
+			// the challenge comes from the tail of the buffer
+			okCh := false
+			instrs(hk, func(in ssa.Instruction) {
+				if cc := callCommon(in); cc != nil {
+					if b, ok := cc.Value.(*ssa.Builtin); ok && b.Name() == "copy" && len(cc.Args) == 2 {
+						if sl, ok := cc.Args[1].(*ssa.Slice); ok && sl.X == buf && sl.Low != nil {
+							lo := c.p.path(sl.Low)
+							// low bound must be the end of the two key ranges (2 * AEADKeySize)
+							if two, ok := c.p.pkg("lib/crypto").Types.Scope().Lookup("TwoAEADKeySize").(*types.Const); ok && lo == two.Val().ExactString() {
+								okCh = true
+							}
+						}
+					}
+				}
+			})
+			r.Check(okCh, "R6/challenge-source", c.p.Pos(hk.Pos()), "challenge = buffer[TwoAEADKeySize:]", "the challenge is no longer copied from the HKDF buffer's tail (beyond the two key ranges)")
 		}
 	}
 }
